@@ -4,12 +4,15 @@ import (
 	"bufio"
 	"fmt"
 	"math/rand"
+	"os"
 	"sort"
 
 	"google.golang.org/protobuf/proto"
 
 	raft "go.etcd.io/raft/v3"
 	pb "go.etcd.io/raft/v3/raftpb"
+
+	"verifharness/enc"
 )
 
 // The application model of DESIGN.md 3.3: for every node a small state machine that
@@ -24,6 +27,7 @@ type appState struct {
 	// asynchronous queues
 	appendQ []*pb.Message
 	applyQ  []*pb.Message
+	ackQ    []*pb.Message // acknowledgements of finished writes not yet delivered back to the node
 
 	// volatile state machine of the application
 	applied  uint64
@@ -39,25 +43,25 @@ type inflightMsg struct {
 }
 
 type Cluster struct {
-	rng   *rand.Rand
-	tr    *bufio.Writer
-	seq   int
-	nodes map[uint64]*Node
-	ids   []uint64
-	net   []*pb.Message
-	base  NodeCfg
+	rng       *rand.Rand
+	tr        *bufio.Writer
+	seq       int
+	nodes     map[uint64]*Node
+	ids       []uint64
+	net       []*pb.Message
+	base      NodeCfg
 	crashFull bool
 
 	// pending MsgSnap deliveries whose outcome has not been reported to the sender
 	snapsOut [][2]uint64 // (from, to)
 
-	tok     int // proposal token counter
-	mon     *Monitors
-	tainted map[string]bool // known-finding signatures observed on this run
-	ops     int
-	sched   []string // closed-loop schedule, for replays
-	blocked map[[2]uint64]bool
-	stopped bool
+	tok       int // proposal token counter
+	mon       *Monitors
+	tainted   map[string]bool // known-finding signatures observed on this run
+	ops       int
+	sched     []string // closed-loop schedule, for replays
+	blocked   map[[2]uint64]bool
+	stopped   bool
 	envStrict bool
 	nested    bool // inside a composite operation (heal): nested operations are not logged
 	trBytes   int  // bytes of trace written so far
@@ -226,6 +230,7 @@ func (c *Cluster) substep(n *Node) bool {
 		a.stage = 4
 	case 4:
 		if n.alive {
+			c.mon.beforeAdvance(n)
 			n.advance(*a.rd)
 			c.mon.afterOp(n, "advance")
 		}
@@ -298,6 +303,11 @@ func (c *Cluster) applyEntries(n *Node, ents []*pb.Entry) {
 			return
 		}
 		c.mon.onApply(n, e)
+		if e.GetIndex() <= n.app.applied {
+			// handed out before a snapshot at or beyond this index was restored: the state
+			// machine already reflects it (a correct application never applies backwards)
+			continue
+		}
 		if cc := decodeCC(e); cc != nil {
 			if e.GetIndex() <= n.app.restoredSnap {
 				c.tainted["F9"] = true
@@ -372,7 +382,10 @@ func (c *Cluster) process(n *Node) {
 	if n.cfg.Async {
 		c.asyncReady(n)
 		for n.alive && len(n.app.appendQ) > 0 {
-			c.appendThread(n)
+			c.appendThread(n, false)
+		}
+		for n.alive && len(n.app.ackQ) > 0 {
+			c.ackThread(n)
 		}
 		for n.alive && len(n.app.applyQ) > 0 {
 			c.applyThread(n)
@@ -416,7 +429,30 @@ func (c *Cluster) asyncReady(n *Node) bool {
 	return true
 }
 
-func (c *Cluster) appendThread(n *Node) bool {
+// ackThread delivers the oldest pending write acknowledgement to the node.
+func (c *Cluster) ackThread(n *Node) bool {
+	if len(n.app.ackQ) == 0 || !n.alive {
+		return false
+	}
+	r := n.app.ackQ[0]
+	n.app.ackQ = n.app.ackQ[1:]
+	c.mon.beforeStep(n, r)
+	before := ""
+	if os.Getenv("VERIF_DIR_DEBUG") != "" {
+		before = c.mon.viewString(n)
+	}
+	n.step(r)
+	if before != "" {
+		fmt.Fprintf(os.Stderr, "ack node %d: %s\n   before %.200s\n   after  %.200s\n", n.id, enc.Message(r), before, c.mon.viewString(n))
+	}
+	c.mon.afterOp(n, "step")
+	return true
+}
+
+// appendThread performs the oldest queued write. The responses addressed to other nodes are sent
+// at once; those addressed to the node itself are delivered at once too, unless [hold] is set:
+// then they wait in ackQ (in order, behind any older ones) for ackThread.
+func (c *Cluster) appendThread(n *Node, hold bool) bool {
 	if len(n.app.appendQ) == 0 {
 		return false
 	}
@@ -427,6 +463,23 @@ func (c *Cluster) appendThread(n *Node) bool {
 		hs = &pb.HardState{Term: new(m.GetTerm()), Vote: new(m.GetVote()), Commit: new(m.GetCommit())}
 	}
 	c.persist(n, m.GetEntries(), hs, m.GetSnapshot())
+	if hold || len(n.app.ackQ) > 0 {
+		var out []*pb.Message
+		for _, r := range m.GetResponses() {
+			if r.GetTo() == n.id {
+				n.app.ackQ = append(n.app.ackQ, r)
+			} else {
+				out = append(out, r)
+			}
+		}
+		c.send(n.id, out)
+		if !hold {
+			for n.alive && len(n.app.ackQ) > 0 {
+				c.ackThread(n)
+			}
+		}
+		return true
+	}
 	c.deliverResponses(n, m.GetResponses())
 	return true
 }
